@@ -349,30 +349,31 @@ def successor(eff, env, st, world, eps=DEFAULT_EPS):
                 raise Conflict(f"{a} added and deleted by different effect groups")
     facts = (set(st[0]) - {d for _, d in dels}) | {a for _, a in adds}
     fl = dict(st[1])
-    written = set()
+    writes = {}
     for g, k, p in fired:
         if k in ("add", "del"):
             continue
         key, v = p
-        if key in written:
-            raise Conflict(f"fluent {key} written twice")
-        written.add(key)
-        if k == "assign":
-            fl[key] = v
+        writes.setdefault(key, []).append((k, v))
+    for key, ops in writes.items():
+        kinds = {k for k, _ in ops}
+        if len(ops) > 1 and (kinds - {"increase", "decrease"}):
+            # PDDL 2.1: only additive effects on one fluent commute; anything else written twice is inconsistent
+            raise Conflict(f"fluent {key} written twice (not only by increase/decrease)")
+        if "assign" in kinds:
+            fl[key] = ops[0][1]
+            continue
+        if key not in st[1]:
+            raise Undefined(f"fluent {key} undefined")
+        old = st[1][key]
+        if kinds <= {"increase", "decrease"}:
+            fl[key] = old + sum((v if k == "increase" else -v) for k, v in ops)
+        elif kinds == {"scale-up"}:
+            fl[key] = old * ops[0][1]
         else:
-            if key not in st[1]:
-                raise Undefined(f"fluent {key} undefined")
-            old = st[1][key]
-            if k == "increase":
-                fl[key] = old + v
-            elif k == "decrease":
-                fl[key] = old - v
-            elif k == "scale-up":
-                fl[key] = old * v
-            else:
-                if v == 0:
-                    raise Undefined("scale-down by zero")
-                fl[key] = old / v
+            if ops[0][1] == 0:
+                raise Undefined("scale-down by zero")
+            fl[key] = old / ops[0][1]
     return frozenset(facts), fl
 
 
